@@ -118,7 +118,8 @@ def run(chk, repo: Repo):
                        "with that state and its chain index, in this order; the loop is defined once (no concrete sampler replaces sample / warmup); "
                        "a sampler constructor that accepts **kwargs forwards them to its base constructor (callback, initial point)", floor=13)
     chk.rule("C14-R4", "state keys assigned from constructor parameters are re-derived by initialize/_initialize or "
-                       "saved and restored around the reset in reinitialize", floor=12)
+                       "saved and restored around the reset in reinitialize; property setters re-bind their field and never write into the object it holds "
+                       "(the configured initial value and earlier get_state() payloads share it)", floor=12)
     chk.rule("C14-R5", "get_state/set_state/get_history/set_history/reinitialize/load_checkpoint read resp. write exactly "
                        "the folded key sets; unknown keys are refused; read accessors write no attribute", floor=7)
     chk.rule("C14-R6", "attributes assigned during initialisation from a nondeterministic source and read by step are state keys", floor=12)
@@ -148,7 +149,8 @@ def run(chk, repo: Repo):
     _r7(chk, repo, base)
     _legacy(chk, repo)
     chk.rule("C14-R9", "both Gibbs samplers: every sweep is stored once; a continued run resumes from the last stored sample "
-                       "(warm-up column only if no sample was ever stored); no effect outside the sweep loop [rule bodies shared with C09-R4]", floor=5)
+                       "(warm-up column only if no sample was ever stored); no effect outside the sweep loop [rule bodies shared with C09-R4]; "
+                       "no call of an own method passes two identically named quantities (N, Nb) in each other's positions", floor=5)
     _r4_setters_rebind(chk, repo)
     from ..argswap import argswap_rule
     argswap_rule(chk, repo, "C14-R9", ("cuqi/sampler/", "cuqi/experimental/mcmc/"))
